@@ -88,6 +88,9 @@ func c02(e *Env) {
 	if f.w.Stopped() {
 		return
 	}
+	if !f.clientsStillOpen("c02-connection") {
+		return
+	}
 	if f.w.Stats["backend.streams_high_water"] >= 2048 {
 		e.Res.Stats["probe.c02.all_backend_streams_in_use"]++
 	}
